@@ -53,6 +53,8 @@ def base_scenarios():
     out.append(('sticky', [(s1, 0)], [(2, s1, 1)], [(1, s1, 0), (3, 0, 0), (1, s1, 0)]))
     # unregister_signal racing with a registration of the same signal, then a delivery: the registration that returned must run
     out.append(('unregsig_vs_register', [(s1, 0)], [(2, s1, 7)], [(4, s1, 0), (2, s1, 8), (1, s1, 0)]))
+    # ... and with a registration of ANOTHER signal (a whole-registry copy taken too early loses it)
+    out.append(('unregsig_vs_register_other', [(s1, 0), (s2, 0)], [(2, s1, 7)], [(4, s1, 0), (2, s2, 8), (1, s2, 0)]))
     out.append(('other_signal', [(s1, 0), (s2, 0)], [(2, s1, 1), (2, s2, 2)], [(1, s1, 0), (3, 1, 0), (1, s2, 0)]))
     return out
 
